@@ -217,7 +217,8 @@ class Examiner:
             {"x": rng.choice(["s", (1, 2), None, True]), "y": rng.choice([1.5, 2, "t"])},
         ]
         self.names = frozenset(NAMES)
-        self.by_class = {c: Counter() for c in ("T1", "T2", "T3", "corpus")}
+        self.by_class = {c: Counter() for c in ("T1", "T2", "T3", "corpus", "history")}
+        self.accepted_sources: list = []
         self.over_samples = {}
         self.audit_seen = Counter()
         self.eval_outcomes = Counter()
@@ -375,6 +376,8 @@ class Examiner:
                     f"is outside the documented whitelist")
         else:
             run.count("accepted_predicate_true")
+            if cls != "history" and len(self.accepted_sources) < 6000:
+                self.accepted_sources.append(expr)
         # (b) structure
         code = closure_code(fn) if callable(fn) else None
         sprobs = []
@@ -583,6 +586,26 @@ def run(run):
                 continue
             ex.examine(src, "corpus", {"shell": shell, "idiom": idiom})
         _factory_slice(run, ex, mine_items)
+        # ---- history: acceptance must not depend on what was compiled before — the same source is compiled again
+        # with a SMALLER variable set (a name that was declared then is undeclared now), and builtin-shadowing
+        # variable names are declared once and dropped afterwards
+        saved = ex.names
+        pool = ex.accepted_sources[: (700 if run.tier == "quick" else 6000)]
+        for names in (frozenset({"x"}), frozenset({"y"}), frozenset()):
+            ex.names = names
+            for src in pool:
+                ex.examine(src, "history", {"recompiled_with": sorted(names)})
+        for b in ("len", "vars", "sorted", "id", "dir"):
+            for shape in ("(x, {b})", "max(x, {b})", "x if {b} else y", "max(x, key={b})"):
+                src = shape.format(b=b)
+                ex.names = frozenset({"x", "y", b})
+                saved_assignments = ex.assignments
+                ex.assignments = [dict(a, **{b: 7}) for a in saved_assignments]   # the declared variable gets a value
+                ex.examine(src, "history", {"declared": b})
+                ex.assignments = saved_assignments
+                ex.names = frozenset({"x", "y"})
+                ex.examine(src, "history", {"dropped": b})
+        ex.names = saved
     except BaseException:
         complete = False
         raise
